@@ -272,7 +272,11 @@ func (p *AzureProvider) extractClaimsIntoSession(ctx context.Context, session *s
 		return fmt.Errorf("unable to get claims from token: %v", err)
 	}
 
-	session.Email = s.Email
+	// tokens without an e-mail claim (the e-mail then comes from the profile API
+	// at login) must not wipe the e-mail of a session that is being refreshed
+	if s.Email != "" {
+		session.Email = s.Email
+	}
 	if s.Groups != nil {
 		session.Groups = s.Groups
 	}
